@@ -286,7 +286,13 @@ func c14Case(a actCfg, x *ref.T) core.Verdict {
 		return core.Fail("%s on %v: %v", a, x.Shape, err)
 	}
 	got := rt.Read(y)
-	if ok, msg := core.RelClose(got, exp, 1e-9, 1e-3); !ok {
+	rel, floor := 1e-9, 1e-3
+	if a.kind == "Sigmoid" {
+		// 1/(1+e^-x) is positive and well-conditioned for every finite x: tiny outputs for very
+		// negative inputs are judged relative to themselves (down to 1e-300), with a loose factor
+		rel, floor = 1e-6, 1e-300
+	}
+	if ok, msg := core.RelClose(got, exp, rel, floor); !ok {
 		return core.Fail("%s on %v (x=%v): %s", a, x.Shape, shortT(x), msg)
 	}
 	if a.kind == "Softmax" {
